@@ -55,6 +55,19 @@ def locked_incr(v, seq, n, conn):
     conn.close()
 
 
+def private_array(n, conn_in, conn_out):
+    """a forked child allocates a shared array of its own, fills it, waits, and reports whether it
+    still holds what it wrote"""
+    import billiard.sharedctypes as sc
+    mine = sc.RawArray('B', n)
+    for i in range(n):
+        mine[i] = 0x5A
+    conn_out.send('filled')
+    conn_in.recv()
+    conn_out.send(all(x == 0x5A for x in mine))
+    conn_out.close()
+
+
 def visibility(arr, conn):
     """child side of the two-way visibility handshake"""
     t0 = time.time()
